@@ -122,6 +122,69 @@ func checkLoaded(c *fw.Ctx, tr *iavl2.Tree, t int64, snap model.Snap, hash []byt
 	return ok
 }
 
+// continueFromOlder: "loading any retained version ... and continuing the history from there yields
+// the same hashes as the uninterrupted run": a copy of the closed store is reopened at version t,
+// the recorded write sets of t+1..latest are applied again and every commit must return the version
+// number and root hash of the uninterrupted run; contents are compared at the end.
+func continueFromOlder(c *fw.Ctx, x *v2History, cfg v2cfg, dir string, t int64, all [][]v2op, hist string) {
+	h, err := openV2(dir, cfg)
+	if err != nil {
+		return
+	}
+	defer h.close()
+	var loadErr error
+	done, _, ev := fw.Bounded(120*time.Second, "github.com/cosmos/iavl/v2", func() {
+		defer func() {
+			if r := recover(); r != nil {
+				loadErr = fmt.Errorf("panic: %v", r)
+			}
+		}()
+		loadErr = h.tree.LoadVersion(t)
+	})
+	if !done {
+		c.Res.Inconcl = "LoadVersion did not return: " + ev
+		return
+	}
+	if loadErr != nil {
+		c.Violate(int(t), "v2p|continue-older|load-error", "LoadVersion(%d): %v; %s", t, loadErr, hist)
+		return
+	}
+	for v := t + 1; v <= x.M.Latest; v++ {
+		var hash []byte
+		var ver int64
+		var err error
+		func() {
+			defer func() {
+				if r := recover(); r != nil {
+					err = fmt.Errorf("panic: %v", r)
+				}
+			}()
+			for _, o := range all[v-1] {
+				if o.del {
+					if _, _, e := h.tree.Remove(o.k); e != nil {
+						err = e
+						return
+					}
+				} else if _, e := h.tree.Set(o.k, o.v); e != nil {
+					err = e
+					return
+				}
+			}
+			hash, ver, err = h.tree.SaveVersion()
+		}()
+		if err != nil {
+			c.Violate(int(v), "v2p|continue-older|error", "after LoadVersion(%d), re-applying the writes of version %d: %v; %s", t, v, err, hist)
+			return
+		}
+		if ver != v || !bytes.Equal(hash, x.hashes[v]) {
+			c.Violate(int(v), "v2p|continue-older|hash", "after LoadVersion(%d), the commit of the same writes returned (%x,%d), the uninterrupted run returned (%x,%d); %s", t, hash, ver, x.hashes[v], v, hist)
+			return
+		}
+		c.Obs("v2_commits_continued_from_an_older_version", 1)
+	}
+	checkV2Reads(c, h.tree, x.M.Vers[x.M.Latest], x.universe, -1, "continued-from-older", hist, c.Rng, 20)
+}
+
 // lockedCommit: a second SQLite connection holds the write lock of changelog.sqlite or tree.sqlite
 // while ONE version is committed (as a backup job or a sqlite3 shell would). Only acknowledged
 // commits are judged: if SaveVersion reports the failure nothing is asked of that version; if it
@@ -220,8 +283,8 @@ func init() {
 		Level:       "exploration",
 		Cases:       func(tier string) int { return tierN(tier, 128, 6000) },
 		CaseTimeout: 300e9,
-		Rule: "case = one normal-form history (5-14 versions incl. empty versions and commits without writes; 1-10 keys) written by a v2 tree over on-disk SQLite (checkpoint interval from {1,2,3,7}, HeightFilter{0,1}, EvictionDepth{-1,1,8}, ShardTrees{off,on}; combination = case index mod 48) and then closed. " +
-			"(reload) for EVERY version t the database is reopened by a fresh tree and LoadVersion(t) must succeed with Version()=t, the root hash returned at commit, Size, Get of every probe key and full iteration equal to the model of t - targets fall on, just after and far after a checkpoint (the root table tells which; counted per class). (continue) from the reloaded latest version 2-3 further write sets are committed and every hash must equal the reference tree continuing the uninterrupted history; then the continued store is reloaded again. " +
+		Rule: "case = one normal-form history (5-14 versions incl. empty versions and commits without writes; 1-10 keys) (every 4th case: 32 keys written once, then versions touching one hot key plus removals of keys that are not there) written by a v2 tree over on-disk SQLite (checkpoint interval from {1,2,3,7}, HeightFilter{0,1}, EvictionDepth{-1,1,8}, ShardTrees{off,on}; combination = case index mod 48) and then closed. " +
+			"(reload) for EVERY version t the database is reopened by a fresh tree and LoadVersion(t) must succeed with Version()=t, the root hash returned at commit, Size, Get of every probe key and full iteration equal to the model of t - targets fall on, just after and far after a checkpoint (the root table tells which; counted per class). (continue-older) for a random older version t (and an older version with an empty tree, if any) a copy of the store is reopened at t and the recorded write sets of t+1..latest are applied again: every commit must return the version number and hash of the uninterrupted run. (continue) from the reloaded latest version 2-3 further write sets are committed and every hash must equal the reference tree continuing the uninterrupted history; then the continued store is reloaded again. " +
 			"(prune) on a copy of the store DeleteVersionsTo(n) for a random n is issued, the harness waits (bounded polling of the root table; not draining within the bound is INCONCLUSIVE, not a violation) and commits one more version, closes and reopens: the latest version and every version at or above the last checkpoint not after n must load with the right hash and contents. (snapshot) SaveSnapshot at the latest version, then LoadSnapshot(version, PreOrder) on a fresh tree: root hash and contents must equal the source version. (locked commit, every 2nd case) one further version is committed while a second SQLite connection holds the write lock of changelog.sqlite or tree.sqlite: if SaveVersion acknowledges the commit the version must reload exactly after close and reopen (if it reports the failure only the earlier versions are checked). " +
 			"distinct = hash(options, write sets); non-trivial = >=1 reload of a non-checkpoint version and >=1 continued commit.",
 		Assumptions: []string{"M and R as oracles; the root table is read directly (read-only SQLite connection) to classify load targets and to detect the end of background pruning", "continuation is judged from the latest version (re-committing an existing v2 version is not part of the property)"},
@@ -249,9 +312,37 @@ func init() {
 			}
 			x := &v2History{c: c, cfg: cfg, h: h, M: model.New(0), R: ref.NewHistory(0), universe: v2Universe(rng), hashes: map[int64][]byte{}}
 			nver := 5 + rng.Intn(10)
+			// every 4th case is "wide and localised": 32 keys written once, then versions that touch
+			// only one or two hot keys and (half of the time) remove a key that is not there - large
+			// parts of the tree stay untouched from checkpoint to checkpoint
+			wide := c.Index%4 == 1
+			if wide {
+				x.universe = nil
+				for i := 0; i < 32; i++ {
+					x.universe = append(x.universe, []byte(fmt.Sprintf("w%02d", i)))
+				}
+				c.Obs("v2_wide_localised_histories", 1)
+			}
+			absent := [][]byte{[]byte("zzz-not-there"), []byte("a-not-there"), []byte("w15x"), []byte("w07-")}
 			var all [][]v2op
 			for v := 0; v < nver; v++ {
 				ops := genWriteSet(rng, x.universe, x.M.Work, &x.vc, rng.Intn(10) == 0)
+				if wide {
+					ops = nil
+					if v == 0 {
+						for _, k := range x.universe {
+							x.vc++
+							ops = append(ops, v2op{k: k, v: []byte(fmt.Sprintf("v%d", x.vc))})
+						}
+					} else {
+						hot := rng.Intn(2) * 31 // the smallest or the largest key
+						x.vc++
+						ops = append(ops, v2op{k: x.universe[hot], v: []byte(fmt.Sprintf("v%d", x.vc))})
+						if rng.Intn(2) == 0 {
+							ops = append(ops, v2op{del: true, k: absent[rng.Intn(len(absent))]})
+						}
+					}
+				}
 				all = append(all, ops)
 				if !x.commit(ops) {
 					h.close()
@@ -307,6 +398,28 @@ func init() {
 			}
 			if len(c.Res.Violations) > 0 {
 				return
+			}
+			// ---- continue from an older version on a copy (same writes, same hashes) ----
+			if latest >= 3 {
+				targets := []int64{1 + rng.Int63n(latest-1)}
+				// prefer a version whose tree is empty, if there is one below the latest
+				for t := latest - 1; t >= 1; t-- {
+					if len(x.M.Vers[t]) == 0 {
+						targets = append(targets, t)
+						break
+					}
+				}
+				for _, t := range targets {
+					cdir := dir + "-cont"
+					os.RemoveAll(cdir)
+					if err := copyDir(dir, cdir); err == nil {
+						continueFromOlder(c, x, cfg, cdir, t, all, hist)
+					}
+					os.RemoveAll(cdir)
+					if len(c.Res.Violations) > 0 {
+						return
+					}
+				}
 			}
 			// ---- prune on a copy ----
 			if latest >= 4 {
